@@ -71,6 +71,45 @@ theorem C05_selected_marker (ws rest : Str) (hws : ∀ c ∈ ws, isSpaceC c = tr
     simp only [selected, List.cons_append, trimLeft, hc, if_true]
     exact ih (fun x hx => hws x (List.mem_cons_of_mem _ hx))
 
+theorem hasPrefix_iff (p s : Str) : hasPrefix p s = true ↔ ∃ r, s = p ++ r := by
+  induction p generalizing s with
+  | nil => cases s <;> simp [hasPrefix]
+  | cons c cs ih =>
+    cases s with
+    | nil => simp [hasPrefix]
+    | cons d ds =>
+      simp only [hasPrefix, Bool.and_eq_true, beq_iff_eq, ih, List.cons_append, List.cons.injEq]
+      constructor
+      · rintro ⟨rfl, r, rfl⟩; exact ⟨r, rfl, rfl⟩
+      · rintro ⟨r, rfl, rfl⟩; exact ⟨rfl, r, rfl⟩
+
+theorem trimLeft_split (v : Str) : ∃ ws, (∀ c ∈ ws, isSpaceC c = true) ∧ v = ws ++ trimLeft v := by
+  induction v with
+  | nil => exact ⟨[], by simp, rfl⟩
+  | cons c cs ih =>
+    by_cases hc : isSpaceC c = true
+    · obtain ⟨ws, h1, h2⟩ := ih
+      refine ⟨c :: ws, ?_, ?_⟩
+      · intro x hx
+        rcases List.mem_cons.1 hx with rfl | hx
+        · exact hc
+        · exact h1 x hx
+      · simp only [trimLeft, hc, if_true, List.cons_append]; rw [← h2]
+    · exact ⟨[], by simp, by simp [trimLeft, hc]⟩
+
+/-- **C05_selected_iff** — the literal-selection predicate is EXACTLY "white space, then `# @genqlient`": a Go
+    string literal is handed to the parser (and so to the validator) iff its text has that shape; no other
+    literal is ever silently taken for an operation and none of that shape is skipped. -/
+theorem C05_selected_iff (v : Str) :
+    selected v = true ↔ ∃ ws rest, (∀ c ∈ ws, isSpaceC c = true) ∧ v = ws ++ marker ++ rest := by
+  constructor
+  · intro h
+    obtain ⟨ws, h1, h2⟩ := trimLeft_split v
+    obtain ⟨r, hr⟩ := (hasPrefix_iff marker (trimLeft v)).1 h
+    exact ⟨ws, r, h1, by rw [List.append_assoc, ← hr]; exact h2⟩
+  · rintro ⟨ws, rest, h1, rfl⟩
+    exact C05_selected_marker ws rest h1
+
 -- non-vacuity
 example : merged [({ name := ['a'], kind := .graphql, defs := [1, 2], lits := [] } : File Nat),
     { name := ['b'], kind := .go, defs := [], lits := [⟨"\n  # @genqlient\nquery".toList, [3]⟩, ⟨"plain".toList, [9]⟩] }] = [1, 2, 3] := by
